@@ -22,6 +22,7 @@ import (
 
 	"github.com/consensys/gnark-crypto/ecc"
 	bn254te "github.com/consensys/gnark-crypto/ecc/bn254/twistededwards"
+	bn254eddsa "github.com/consensys/gnark-crypto/ecc/bn254/twistededwards/eddsa"
 	tedwards "github.com/consensys/gnark-crypto/ecc/twistededwards"
 	gchash "github.com/consensys/gnark-crypto/hash"
 	"github.com/consensys/gnark-crypto/signature"
@@ -554,6 +555,12 @@ func runEdDSA(c EdDSACase) ev.Outcome {
 		}
 	}
 	want, why := eddsaReference(cv, A, R, S, msg)
+	if c.Curve == "bn254" && cv.onCurve(A) && cv.onCurve(R) && S.Sign() > 0 && S.Cmp(cv.Order) < 0 {
+		// gnark-crypto's own verifier on the same (R, S, A, msg) wherever its encoding rules admit them
+		if got, ok := eddsaGnarkCryptoBN254(A, R, S, msg); ok && got != want {
+			return ev.Outcome{Discard: true, DiscardWhy: fmt.Sprintf("harness: reference equation (%v) and gnark-crypto eddsa.Verify (%v) disagree", want, got)}
+		}
+	}
 	classes := []string{"eddsa-curve:" + c.Curve, "eddsa-mut:" + c.Mut, fmt.Sprintf("eddsa-native-accepts:%v", want)}
 	if !want {
 		classes = append(classes, "eddsa-reject-reason:"+why)
@@ -576,6 +583,27 @@ func runEdDSA(c EdDSACase) ev.Outcome {
 		return ev.Outcome{Violation: fmt.Sprintf("[eddsa %s mut=%s] circuit accepts=%v but the native cofactored equation accepts=%v (%s): %v", c.Curve, c.Mut, err == nil, want, why, err)}
 	}
 	return ev.Outcome{NonTrivial: !want || c.Mut != "valid", Classes: classes}
+}
+
+func eddsaGnarkCryptoBN254(A, R point, S, msg *big.Int) (accept bool, usable bool) {
+	var pa, pr bn254te.PointAffine
+	pa.X.SetBigInt(A.X)
+	pa.Y.SetBigInt(A.Y)
+	pr.X.SetBigInt(R.X)
+	pr.Y.SetBigInt(R.Y)
+	var pk bn254eddsa.PublicKey
+	pk.A = pa
+	rb := pr.Bytes()
+	sig := make([]byte, 64)
+	copy(sig[:32], rb[:])
+	S.FillBytes(sig[32:])
+	m := make([]byte, 32)
+	msg.FillBytes(m)
+	ok, err := pk.Verify(sig, m, gchash.MIMC_BN254.New())
+	if err != nil {
+		return false, false // refused at the encoding level (e.g. R encodes to zero)
+	}
+	return ok, true
 }
 
 type detReader struct {
@@ -638,7 +666,7 @@ func genEdDSA(names []string) *rapid.Generator[EdDSACase] {
 		if err != nil {
 			t.Fatalf("harness: cannot sign: %v", err)
 		}
-		c := EdDSACase{Curve: name, Mut: rapid.SampledFrom([]string{"valid", "valid", "msg", "S+1", "S+order", "S=0", "S=order", "R-neg", "R-other", "R+low", "A-other", "A-neg", "A+low", "R=identity", "A=identity", "swap-RA"}).Draw(t, "mut")}
+		c := EdDSACase{Curve: name, Mut: rapid.SampledFrom([]string{"valid", "valid", "msg", "S+1", "S+order", "S=0", "S=order", "R-neg", "R-other", "R+low", "A-other", "A-neg", "A+low", "R=identity", "A=identity", "swap-RA", "own-sign", "own-sign-R+low", "own-sign-R+low", "own-sign-A+low", "own-sign-A+low"}).Draw(t, "mut")}
 		low := cv.lowOrder()
 		switch c.Mut {
 		case "msg":
@@ -665,6 +693,26 @@ func genEdDSA(names []string) *rapid.Generator[EdDSACase] {
 			A = cv.neg(A)
 		case "A+low":
 			A = cv.add(A, rapid.SampledFrom(low).Draw(t, "low"))
+		case "own-sign", "own-sign-R+low", "own-sign-A+low":
+			// signatures made with the reference arithmetic: R (resp. A) carries a component of order
+			// dividing the cofactor, so the equation holds only thanks to the cofactor clearing
+			a := randBelow(t, "sk", cv.Order)
+			rr := randBelow(t, "nonce", cv.Order)
+			A = cv.mul(cv.Base, a)
+			R = cv.mul(cv.Base, rr)
+			if c.Mut == "own-sign-R+low" {
+				R = cv.add(R, rapid.SampledFrom(low).Draw(t, "low"))
+			}
+			if c.Mut == "own-sign-A+low" {
+				A = cv.add(A, rapid.SampledFrom(low).Draw(t, "low"))
+			}
+			h := cv.Hash.New()
+			for _, v := range []*big.Int{R.X, R.Y, A.X, A.Y, msg} {
+				h.Write(feBytes(cv, v))
+			}
+			hram := new(big.Int).SetBytes(h.Sum(nil))
+			S = new(big.Int).Mul(hram, a)
+			S.Add(S, rr).Mod(S, cv.Order)
 		case "R=identity":
 			R = teIdentity()
 		case "A=identity":
